@@ -56,13 +56,47 @@ fn extract_function_type_info(
     }
 }
 
+/// The type table followed by the process type of every function that has none registered.
+///
+/// A process handle carries the index of a function (the spawned one, or the one `&.` was
+/// evaluated under), and its concrete type is that function's process type. The compiler
+/// registers such a type only where a spawn of a statically known function is written, so the
+/// handle of any other function - one spawned through a variable, one reached by a tail call,
+/// a REPL line - had no type id to test against a pattern and matched nothing. The extension
+/// is local to the computation: pattern ids and the returned tables keep the original indices.
+fn types_with_process_types(input: &CompatibilityInput) -> Vec<Type> {
+    let mut types = input.types.to_vec();
+    let mut seen: HashSet<(Option<usize>, Option<usize>)> = types
+        .iter()
+        .filter_map(|ty| match ty {
+            Type::Process { send, receive } => Some((*send, *receive)),
+            _ => None,
+        })
+        .collect();
+    for func in input.functions {
+        let (_, _, send, receive) = extract_function_type_info(func, input.types);
+        if (send.is_some() || receive.is_some()) && seen.insert((send, receive)) {
+            types.push(Type::Process { send, receive });
+        }
+    }
+    types
+}
+
 /// Compute type compatibility table for all pattern types used in the program.
 /// This precomputes which ConcreteTypes are compatible with which pattern types,
 /// allowing O(1) runtime type checking instead of recursive type traversal.
 /// Returns a Vec where index is type_id and value is the set of compatible concrete types.
 pub fn compute_type_compatibility(input: &CompatibilityInput) -> Vec<HashSet<ConcreteType>> {
-    let lookup = TypeLookupImpl::new(input.types, input.tuples);
-    let index = TypeIndex::build(input, &lookup);
+    let types = types_with_process_types(input);
+    let extended = CompatibilityInput {
+        types: &types,
+        tuples: input.tuples,
+        functions: input.functions,
+        builtins: input.builtins,
+        resource_names: input.resource_names,
+    };
+    let lookup = TypeLookupImpl::new(&types, input.tuples);
+    let index = TypeIndex::build(&extended, &lookup);
 
     // Collect all pattern type IDs (types used in IsType instructions)
     let mut pattern_type_ids = HashSet::new();
@@ -85,7 +119,7 @@ pub fn compute_type_compatibility(input: &CompatibilityInput) -> Vec<HashSet<Con
         }
 
         compatible_with[pattern_id] =
-            compute_compatible_concrete_types(pattern_id, input, &lookup, &index);
+            compute_compatible_concrete_types(pattern_id, &extended, &lookup, &index);
     }
 
     compatible_with
@@ -115,14 +149,24 @@ pub fn compute_canonical_tuples(tuples: &[TupleTypeInfo]) -> Vec<usize> {
 pub fn compute_param_compatibility(
     input: &CompatibilityInput,
 ) -> (Vec<HashSet<ConcreteType>>, Vec<HashSet<ConcreteType>>) {
-    let lookup = TypeLookupImpl::new(input.types, input.tuples);
-    let index = TypeIndex::build(input, &lookup);
+    let types = types_with_process_types(input);
+    let extended = CompatibilityInput {
+        types: &types,
+        tuples: input.tuples,
+        functions: input.functions,
+        builtins: input.builtins,
+        resource_names: input.resource_names,
+    };
+    let lookup = TypeLookupImpl::new(&types, input.tuples);
+    let index = TypeIndex::build(&extended, &lookup);
 
     // Many functions share a parameter type, so memoise the result by parameter type id.
     let mut memo: HashMap<usize, HashSet<ConcreteType>> = HashMap::new();
     let mut compatible_for = |param: usize| -> HashSet<ConcreteType> {
         memo.entry(param)
-            .or_insert_with(|| compute_compatible_concrete_types(param, input, &lookup, &index))
+            .or_insert_with(|| {
+                compute_compatible_concrete_types(param, &extended, &lookup, &index)
+            })
             .clone()
     };
 
